@@ -1,4 +1,5 @@
 import ArimModel.Weights
+import ArimProofs.Tie.C06
 import ArimProofs.Lemmas.Weights
 import ArimProofs.Lemmas.Pencil
 import Mathlib.Analysis.Complex.Trigonometric
@@ -471,5 +472,54 @@ example (r2 : ℝ) :
   tube_two_legs 0 1 1 2 (1 / 2) r2 one_pos two_pos example_below_critical
 
 end pencil
+
+
+/-! ## The same statements about the code as translated on this run
+
+`Src.beamspread_2d_for_path` (file `Generated/SrcC06.lean`) is the translation of `arim.model.beamspread_2d_for_path`
+made from `/repo/src` on every run; `Tie.C06.tie_beamspread` identifies it with the model. -/
+section OnSource
+open Arim.Tie.C06
+
+/-- the routines of the translated code at `K = ℝ` -/
+noncomputable def srcOps : Src.Ops ℝ :=
+  { sin := Real.sin, cos := Real.cos, asin := Real.arcsin, sqrt := Real.sqrt, exp := Real.exp, sinc := id,
+    pi := Real.pi, ofNat := fun n => (n : ℝ), ofInt := fun z => (z : ℝ),
+    floor := fun x => ⌊x⌋, round := fun x => round x, trunc := fun x => ⌊x⌋ }
+
+theorem rtrig_srcOps : rtrig srcOps = rT := by
+  simp [rtrig, srcOps, rT]
+
+/-- **the translated function computes the ray-tube divergence**: for a ray through `n ≥ 1` legs the value returned
+by the translated `beamspread_2d_for_path` is `1/√d` with `d = ρ_n / Π γ_k` the radius of curvature transported along
+the ray (same hypotheses as `beamspread_eq_tube`) -/
+theorem src_beamspread_eq_tube (ni : Nat) (vel ang leg : Nat → ℝ) (hn : 2 ≤ ni)
+    (hg : ∀ γ ∈ gammas rT (velsOf vel (ni - 1)) (angsOf ang (ni - 1)), γ ≠ 0) :
+    Src.beamspread_2d_for_path srcOps ni vel ang leg =
+      1 / Real.sqrt (rho (legsOf leg (ni - 1)) (gammas rT (velsOf vel (ni - 1)) (angsOf ang (ni - 1)))
+        / (gammas rT (velsOf vel (ni - 1)) (angsOf ang (ni - 1))).prod) := by
+  rw [tie_beamspread srcOps ni vel ang leg hn, rtrig_srcOps]
+  apply beamspread_eq_tube _ _ _ _ hg
+  rw [gammas_length rT _ _ (by simp [velsOf, angsOf]; omega)]
+  simp [legsOf, angsOf]; omega
+
+/-- **single medium**, translated code: with two interfaces (one leg) the beamspread is `1/√r` -/
+theorem src_single_medium (vel ang leg : Nat → ℝ) :
+    Src.beamspread_2d_for_path srcOps 2 vel ang leg = 1 / Real.sqrt (leg 1) := by
+  rw [tie_beamspread srcOps 2 vel ang leg (by omega), rtrig_srcOps]
+  simp [legsOf, velsOf, angsOf, beamspread, virtualDistance, gammas, rT]
+
+/-- **scaling**, translated code: multiplying every leg length by `s ≥ 0` divides the beamspread by `√s` -/
+theorem src_scaling (s : ℝ) (hs : 0 ≤ s) (ni : Nat) (vel ang leg : Nat → ℝ) (hn : 2 ≤ ni) :
+    Src.beamspread_2d_for_path srcOps ni vel ang (fun k => s * leg k) =
+      Src.beamspread_2d_for_path srcOps ni vel ang leg / Real.sqrt s := by
+  rw [tie_beamspread srcOps ni vel ang _ hn, tie_beamspread srcOps ni vel ang leg hn, rtrig_srcOps]
+  have : legsOf (fun k => s * leg k) (ni - 1) = (legsOf leg (ni - 1)).map (s * ·) := by
+    simp [legsOf]
+  rw [this]
+  apply scaling_beamspread s hs
+  simp [legsOf]; omega
+
+end OnSource
 
 end Arim.C06
